@@ -509,11 +509,11 @@ package chain
 //@   ensures [reset] old(db.unflushed) != 0 ==> called("DB.Flush") && db.unflushed == 0
 //@ func (*DBStore).ApplyBlock props C03
 //@   requires db != nil && db.db != nil && db.n != nil
-//@   ensures [writes-before-commit] !mayHaveCalled("(*DBStore).Flush") || (calledBefore("applyState", "(*DBStore).Flush") && (s.Index.Height > db.n.HardforkV2.RequireHeight || calledBefore("applyElements", "(*DBStore).Flush")))
+//@   ensures [writes-before-commit] !mayHaveCalled("Flush") || (calledBefore("applyState", "Flush") && (s.Index.Height > db.n.HardforkV2.RequireHeight || calledBefore("applyElements", "Flush")))
 //@   ensures [state-written] called("applyState")
 //@ func (*DBStore).RevertBlock props C03
 //@   requires db != nil && db.db != nil && db.n != nil
-//@   ensures [writes-before-commit] !mayHaveCalled("(*DBStore).Flush") || (calledBefore("revertState", "(*DBStore).Flush") && (s.Index.Height > db.n.HardforkV2.RequireHeight || calledBefore("revertElements", "(*DBStore).Flush")))
+//@   ensures [writes-before-commit] !mayHaveCalled("Flush") || (calledBefore("revertState", "Flush") && (s.Index.Height > db.n.HardforkV2.RequireHeight || calledBefore("revertElements", "Flush")))
 //@   ensures [state-written] called("revertState")
 // (assumed frames of the bucket-level writers: they change the write counter and the backend only)
 //@ func (*DBStore).applyState
